@@ -18,6 +18,7 @@ import (
 	"fmt"
 	"io"
 	"os"
+	"strconv"
 	"sync"
 	"sync/atomic"
 
@@ -211,7 +212,7 @@ func (w *world) apply(op J) (err error) {
 	switch op["op"] {
 	case "newroot", "newstruct":
 		m := num(op["m"]) - 1
-		sz := capnp.ObjectSize{DataSize: capnp.Size(8 * num(op["dw"])), PointerCount: uint16(num(op["pc"]))}
+		sz := capnp.ObjectSize{DataSize: capnp.Size(num(op["db"])), PointerCount: uint16(num(op["pc"]))}
 		var s capnp.Struct
 		if op["op"] == "newroot" {
 			s, err = capnp.NewRootStruct(w.segs0[m], sz)
@@ -274,7 +275,7 @@ func (w *world) apply(op J) (err error) {
 		w.objs[num(op["id"])] = l
 	case "newcomp":
 		m := num(op["m"]) - 1
-		sz := capnp.ObjectSize{DataSize: capnp.Size(8 * num(op["dw"])), PointerCount: uint16(num(op["pc"]))}
+		sz := capnp.ObjectSize{DataSize: capnp.Size(num(op["db"])), PointerCount: uint16(num(op["pc"]))}
 		var l capnp.List
 		l, err = capnp.NewCompositeList(w.segs0[m], sz, int32(num(op["n"])))
 		w.objs[num(op["id"])] = l
@@ -468,10 +469,12 @@ func (r *runner) runOne(bi int, b *behaviour, ac arenaCfg, full bool) {
 					rec["framed"] = intsOf(fb)
 				}
 			}
-			r.dmu.Lock()
-			r.dump.Encode(rec)
-			r.dmu.Unlock()
-			r.count("dumps", 1)
+			if last || (bi+si)%dumpEvery == 0 {
+				r.dmu.Lock()
+				r.dump.Encode(rec)
+				r.dmu.Unlock()
+				r.count("dumps", 1)
+			}
 			if last {
 				r.roundTrips(bi, ac, si+1, mi+1, m, exp)
 			}
@@ -603,7 +606,12 @@ func (r *runner) roundTrips(bi int, ac arenaCfg, step, mi int, m *capnp.Message,
 	})
 }
 
+var dumpEvery = 1
+
 func main() {
+	if n, err := strconv.Atoi(os.Getenv("VERIF_DUMP_EVERY")); err == nil && n > 0 {
+		dumpEvery = n
+	}
 	bf, err := os.Open(os.Args[2])
 	if err != nil {
 		panic(err)
